@@ -7,4 +7,5 @@ export GOCACHE=${GOCACHE:-/verif/cache/gocache}
 mkdir -p /verif/bin /verif/out /verif/cache /verif/evidence
 python3 /verif/tools/genall.py
 go build -o /verif/bin/vcheck ./cmd/vcheck
+/verif/bin/vcheck setup
 /verif/bin/vcheck list
